@@ -183,18 +183,21 @@ theorem iter_of_last (s : Scheme) (l : Nat) (hl : 0 < l) (M npi : List Nat)
     rw [Nat.mul_comm]
     generalize l * ((M.length - 1) / l) = q at *
     omega
-  unfold iter Padder.iterblocks
-  simp only [blocklen_mk, hk, hpi]
-  obtain ⟨st', hst⟩ := h (if (M.length - 1) / l = 0 then { } else { bitcnt := 0 + (M.length - 1) / l * (8 * l) })
-  simp only [hst, Bool.false_eq_true, if_false, Nat.lt_irrefl, gt_iff_lt, Bool.not_true, false_and, if_true]
+  have hlc : (⟨s, 8 * l⟩ : Padder).loopCount (8 * M.length) = (M.length - 1) / l := by
+    simp only [Padder.loopCount]; exact hk
+  have hba : (⟨s, 8 * l⟩ : Padder).blockAt M ((M.length - 1) / l) = M.drop (((M.length - 1) / l) * l) := by
+    simp only [Padder.blockAt, blocklen_mk]; exact hpi
   have hr : List.map (fun x : List Nat × PadState => x.fst)
-      (List.map (fun i => (List.take l (List.drop (i * l) M), ({ bitcnt := 0 + (i + 1) * (8 * l) } : PadState)))
-        (List.range ((M.length - 1) / l))) = readBlocks l ((M.length - 1) / l) M := by
+      ((⟨s, 8 * l⟩ : Padder).loopYields {} M ((M.length - 1) / l)) = readBlocks l ((M.length - 1) / l) M := by
+    simp only [Padder.loopYields, Padder.blockAt, blocklen_mk]
     rw [List.map_map, ← range_map_eq_readBlocks]; rfl
+  unfold iter Padder.iterblocks
+  simp only [blocklen_mk, hlc, hba, Option.getD_none, Option.map_none]
+  obtain ⟨st', hst⟩ := h { bitcnt := ({} : PadState).bitcnt + (M.length - 1) / l * (8 * l) }
+  simp only [hst, Bool.false_eq_true, if_false, Nat.lt_irrefl, gt_iff_lt, Bool.not_true, false_and, if_true]
   by_cases hd : 0 < (List.drop l npi).length
   · simp only [hd, if_true, List.map_append, hr]; simp
   · simp only [hd, if_false, List.map_append, hr]; simp
-
 
 /-- arithmetic of the last piece: k = (m-1)/l full blocks are yielded by the loop, r = m - k·l bytes remain -/
 theorem last_piece (m l : Nat) (hl : 0 < l) :
